@@ -97,6 +97,7 @@ struct Dev {
     /// moves `avail_event`, which would change the driver's notification decision)
     store_fill: Option<(usize, u32)>,
     post_seen_at_store: bool,
+    waiting_on_nothing_reported: bool,
     /// `pos` at each receive-queue notification of the current call
     post_marks: Vec<u64>,
 }
@@ -237,6 +238,17 @@ impl Dev {
 
     fn on_spin(&mut self) {
         self.spins += 1;
+        if self.spins == 2000 && self.mode == Mode::RxWait && !self.waiting_on_nothing_reported {
+            // a blocking receive call has been spinning for a while: it must be waiting for a buffer it has
+            // posted (or for data already delivered) — a call that waits with nothing posted waits for ever,
+            // whatever the device does
+            let posted = self.rx_outstanding();
+            if posted == 0 && self.rx.as_ref().map(|q| q.pending().unwrap_or(0) == 0).unwrap_or(false) {
+                self.waiting_on_nothing_reported = true;
+                self.errors.push("[C05] a blocking receive call is busy-waiting although no receive buffer is posted to the device: nothing can ever wake it".into());
+                self.errors.push("a blocking receive call is busy-waiting although no receive buffer is posted to the device: nothing can ever end it".into());
+            }
+        }
         if self.spins > 200_000 {
             panic!("harness: busy-wait did not terminate");
         }
@@ -494,6 +506,7 @@ fn one_case(ctx: &Ctx, stream: &str, idx: usize, id: String, hostile: bool) -> C
         notify_filled: None,
         store_fill: None,
         post_seen_at_store: false,
+        waiting_on_nothing_reported: false,
         post_marks: vec![],
     }));
     DEV.with(|d| *d.borrow_mut() = Some(dev.clone()));
@@ -1043,7 +1056,11 @@ fn one_case(ctx: &Ctx, stream: &str, idx: usize, id: String, hostile: bool) -> C
     DEV.with(|d| *d.borrow_mut() = None);
     st.borrow_mut().on_notify = None;
     for e in std::mem::take(&mut dev.borrow_mut().errors) {
-        sim.case.fail(format!("device: {}", e));
+        if e.starts_with("[C") {
+            sim.case.fail(e);
+        } else {
+            sim.case.fail(format!("device: {}", e));
+        }
     }
     for v in hal::with(|h| std::mem::take(&mut h.violations)) {
         sim.case.fail(format!("ledger: {}", v));
